@@ -107,6 +107,17 @@ def run(tier, repo):
                 c = strip(node["b"])
                 cv = c.get("v") if c.get("k") == "lit" else c.get("val")
                 why = entails_ge(fs, x, cv) if cv is not None else None
+                if cv is None:
+                    # x - y with a dominating guard y < x or y <= x (e.g. `if i.len() < len { .. len - i.len() .. }`)
+                    try:
+                        y = fw.ev.sym(node["b"], env, {})
+                        from ..pir import lt as _lt, le as _le
+                        for fct in fs:
+                            if fct == _lt(y, x) or fct == _le(y, x):
+                                why = "dominating guard %s" % sym_str(fct)
+                        cv = sym_str(y)
+                    except Exception:
+                        pass
                 rp.check(why is not None, "PANIC-SITE", key + "/" + text_key(node), where, "subtraction `%s - %s` can underflow: no dominating guard establishes %s >= %s" % (sym_str(x), cv, sym_str(x), cv),
                          expected="%s >= %s on every path" % (sym_str(x), cv), found=[sym_str(q) for q in fs][:6], why_ok="GUARDED-SUB: " + str(why))
             elif kind == "Overflow(Mul)":
